@@ -10,6 +10,7 @@ INVARIANTS
   RoundTripKeys
   CompressDeterministic
   DictsBijective
+  SigmaIsNextInClass
   CapacityAgrees
   RejectsMalformed
   AcceptsSparse
